@@ -302,13 +302,9 @@ class P:
                 return ("(%s %s)" % ({"S::signum": "qsignum", "S::abs": "Qabs"}[name], self.coerce(a[0], "Q")[0]), "Q")
             if name == "if":
                 c = self.expr()
-                self.eat("op", "{")
-                a = self.expr()
-                self.eat("op", "}")
+                a = self.block_expr()
                 self.eat("id", "else")
-                self.eat("op", "{")
-                b = self.expr()
-                self.eat("op", "}")
+                b = self.block_expr()
                 if a[1] == "lit" and b[1] == "lit":
                     mark = lambda t: t if "\u00ab" in t else "\u00ab%s\u00bb" % t
                     return ("(if %s then %s else %s)" % (self.b(c), mark(a[0]), mark(b[0])), "lit")
@@ -357,6 +353,32 @@ class P:
             raise Unsupported("unknown identifier " + name)
         raise Unsupported("unexpected token %s" % (tok,))
 
+    def block_expr(self):
+        """{ (let x = e;)* e } as an expression; the bindings are local to the block"""
+        self.eat("op", "{")
+        saved_env, saved_subst = dict(self.env), dict(self.subst)
+        lets = []
+        while self.peek() == ("id", "let"):
+            self.eat()
+            n = self.eat("id")[1]
+            self.eat("op", "=")
+            e = self.expr()
+            self.eat("op", ";")
+            if e[1] == "lit":
+                self.subst[n] = e[0]
+                self.env.pop(n, None)
+                continue
+            self.subst.pop(n, None)
+            self.env[n] = e[1]
+            lets.append((self.local(n), e[0]))
+        r = self.expr()
+        self.eat("op", "}")
+        self.env, self.subst = saved_env, saved_subst
+        text = r[0]
+        for n, e in reversed(lets):
+            text = "(let %s := %s in %s)" % (n, e, text)
+        return (text, r[1])
+
     RESERVED = {"from", "to", "in", "at", "as", "end", "fix", "fun", "let", "match", "with", "then", "else", "return", "Type", "Prop", "Set", "using", "where", "for", "forall", "exists", "if", "mod"}
 
     def local(self, name):
@@ -390,6 +412,15 @@ class P:
         stmts = []        # ("let", pattern text, expr) | ("ret", cond, expr)
         while True:
             if self.peek() == ("id", "if"):
+                # `if c { return e; }` is a statement; any other `if` here is the final expression
+                j = self.i + 1
+                depth = 0
+                while j < len(self.t) and not (self.t[j] == ("op", "{") and depth == 0):
+                    depth += self.t[j] == ("op", "(")
+                    depth -= self.t[j] == ("op", ")")
+                    j += 1
+                if j + 1 >= len(self.t) or self.t[j + 1] != ("id", "return"):
+                    break
                 self.eat()
                 c = self.expr()
                 self.eat("op", "{")
